@@ -14,6 +14,7 @@ TREE = 'urn:vk:tree'
 CTX = 'urn:vk:ctx'
 POLY = 'urn:vk:poly'
 FX = 'urn:vk:fx'
+UN = 'urn:vk:un'
 
 
 class N:
@@ -270,7 +271,7 @@ POLY_XSD = f'''<?xml version="1.0" encoding="UTF-8"?>
 '''
 
 FAMILIES = {'shop': SHOP_XSD, 'tree': TREE_XSD, 'ctx': CTX_XSD}
-FAMILY_NS = {'shop': SHOP, 'tree': TREE, 'ctx': CTX, 'poly': POLY, 'fx': FX}
+FAMILY_NS = {'shop': SHOP, 'tree': TREE, 'ctx': CTX, 'poly': POLY, 'fx': FX, 'un': UN}
 # families with special purposes (not part of the shared rotation): xsi:type-dependent identity constraints
 FX_XSD = f'''<?xml version="1.0" encoding="UTF-8"?>
 <xs:schema xmlns:xs="{XS}" targetNamespace="{FX}" xmlns:f="{FX}" elementFormDefault="qualified">
@@ -288,7 +289,40 @@ FX_XSD = f'''<?xml version="1.0" encoding="UTF-8"?>
 </xs:schema>
 '''
 
-EXTRA_FAMILIES = {'poly': POLY_XSD, 'fx': FX_XSD}
+# unions, restricted unions with patterns, lists and unions of lists: several union-typed values per document, so
+# that whatever one value leaves behind in a decode / encode call meets the next value
+UN_XSD = f'''<?xml version="1.0" encoding="UTF-8"?>
+<xs:schema xmlns:xs="{XS}" targetNamespace="{UN}" xmlns:u="{UN}" elementFormDefault="qualified">
+  <xs:simpleType name="U"><xs:union memberTypes="xs:int xs:NCName"/></xs:simpleType>
+  <xs:simpleType name="Code"><xs:restriction base="u:U"><xs:pattern value="[a-z]+[0-9]*"/></xs:restriction></xs:simpleType>
+  <xs:simpleType name="Ref"><xs:restriction base="u:U"><xs:pattern value="[A-Z]{{2}}[0-9]+|[0-9]{{3}}"/></xs:restriction></xs:simpleType>
+  <xs:simpleType name="IntList"><xs:list itemType="xs:int"/></xs:simpleType>
+  <xs:simpleType name="Short"><xs:restriction base="u:IntList"><xs:maxLength value="3"/></xs:restriction></xs:simpleType>
+  <xs:simpleType name="UL"><xs:union memberTypes="u:Short xs:date"/></xs:simpleType>
+  <xs:simpleType name="Tok"><xs:restriction base="xs:token"><xs:pattern value="[a-z]( [a-z])*"/></xs:restriction></xs:simpleType>
+  <xs:element name="un">
+    <xs:complexType>
+      <xs:sequence>
+        <xs:element name="item" maxOccurs="unbounded">
+          <xs:complexType>
+            <xs:sequence>
+              <xs:element name="code" type="u:Code"/>
+              <xs:element name="ref" type="u:Ref" minOccurs="0"/>
+              <xs:element name="size" type="u:U" minOccurs="0"/>
+              <xs:element name="ul" type="u:UL" minOccurs="0"/>
+              <xs:element name="tok" type="u:Tok" minOccurs="0"/>
+            </xs:sequence>
+            <xs:attribute name="a" type="u:Code"/>
+            <xs:attribute name="b" type="u:U"/>
+          </xs:complexType>
+        </xs:element>
+      </xs:sequence>
+    </xs:complexType>
+  </xs:element>
+</xs:schema>
+'''
+
+EXTRA_FAMILIES = {'poly': POLY_XSD, 'fx': FX_XSD, 'un': UN_XSD}
 
 
 def family_xsd(family, version):
@@ -505,7 +539,30 @@ def gen_fx(rng, fault=None):
     return root
 
 
-GENERATORS = {'shop': gen_shop, 'tree': gen_tree, 'ctx': gen_ctx, 'poly': gen_poly, 'fx': gen_fx}
+def gen_un(rng, fault=None):
+    """Valid documents with many union-typed values (plain and pattern-restricted) next to each other."""
+    root = N(UN, 'un', meta={'elem_only': True, 'required_children': ['item']})
+    for _ in range(rng.randint(1, 4)):
+        item = N(UN, 'item', meta={'elem_only': True, 'required_children': ['code']})
+        if rng.random() < 0.6:
+            item.attrs.append(('', 'a', rng.choice(('k9', 'abc', 'z'))))
+            item.meta['bad_attr'] = {'a': 'K9'}
+        if rng.random() < 0.6:
+            item.attrs.append(('', 'b', rng.choice(('7', 'ZZ', '-12', 'Big_one'))))
+        item.children.append(N(UN, 'code', text=rng.choice(('abc', 'x1', 'q')), meta={'bad_text': 'AB'}))
+        if rng.random() < 0.6:
+            item.children.append(N(UN, 'ref', text=rng.choice(('AB12', '123', 'XY0')), meta={'bad_text': 'ab12'}))
+        if rng.random() < 0.7:
+            item.children.append(N(UN, 'size', text=rng.choice(('5', 'XL', 'Big', '042')), meta={'bad_text': '4 2'}))
+        if rng.random() < 0.5:
+            item.children.append(N(UN, 'ul', text=rng.choice(('1 2 3', '7', '2020-01-01', '')), meta={'bad_text': '1 2 3 4'}))
+        if rng.random() < 0.4:
+            item.children.append(N(UN, 'tok', text=rng.choice(('a', 'a b', ' a  b ')), meta={'bad_text': 'A'}))
+        root.children.append(item)
+    return root
+
+
+GENERATORS = {'un': gen_un, 'shop': gen_shop, 'tree': gen_tree, 'ctx': gen_ctx, 'poly': gen_poly, 'fx': gen_fx}
 
 
 # ---------------------------------------------------------------------------------------------
@@ -632,7 +689,7 @@ SPECIAL_IDENTITY_FAULTS = ('dup_vat',)
 
 def default_prefixes(family, rng=None):
     ns = FAMILY_NS[family]
-    base = {'shop': 's', 'tree': 't', 'ctx': 'c', 'poly': 'p', 'fx': 'f'}[family]
+    base = {'shop': 's', 'tree': 't', 'ctx': 'c', 'poly': 'p', 'fx': 'f', 'un': 'u'}[family]
     if rng is None:
         return {ns: base, EXT: 'e'}
     return {ns: rng.choice((base, '', 'q')), EXT: 'e'}
